@@ -5,3 +5,4 @@ cd "$(dirname "$0")"
 . ./env.sh
 mkdir -p .bin evidence replays
 go build -tags verif -o .bin/check ./cmd/check
+go build -race -tags verif -o .bin/check-race ./cmd/check
